@@ -27,10 +27,15 @@ Definition dummy : bytes := [].
 
 (* one HTTP-level step on keyvalue instances living at one (uncommitted) version *)
 Inductive hstep :=
-| HNew (slot : nat) (go_id : N)                       (* create a keyvalue instance; observed instance id *)
+| HNew (slot : nat) (go_id : N) (go_empty : bool)     (* create a keyvalue instance; observed instance id;
+                                                         right after creation: no stored key under that id
+                                                         (raw dump) and an empty keys listing *)
 | HPost (slot : nat) (k body : bytes) (go_ok : bool)  (* POST key/k; did the server accept it (2xx)? *)
 | HDel (slot : nat) (k : bytes) (go_ok : bool)        (* DELETE key/k *)
-| HDrop (slot : nat).                                 (* datastore.DeleteDataByName, waited for *)
+| HDrop (slot : nat)                                  (* datastore.DeleteDataByName, waited for *)
+| HCrashDrop (slot : nat)                             (* the same, interrupted after the repo metadata was
+                                                         saved: the instance is gone, its key-values are not *)
+| HRestart.                                           (* the datastore is closed and opened again *)
 
 (* what a client sees of one instance: its keys listing and, per key ever used, GET key/k *)
 Definition view := (res (list bytes) * list (bytes * res (option bytes)))%type.
@@ -50,6 +55,8 @@ Inductive c06case :=
        (go_tomb go_min go_max : bytes) (go_marks : bool * bool)
 (* the same, keeping only the updated key and the ids parsed from it (bulk cube) *)
 | CKeyLite (i v c : N) (tk : bytes) (go_upd : res bytes) (go_ids : res (N * N * N))
+(* UpdateDataKey(copy of TombstoneKey(tk) under (i0, v0), i, v, c): the key stays a tombstone key *)
+| CUpdTomb (i0 v0 i v c : N) (tk : bytes) (go : res bytes) (go_istomb : bool) (go_ids : res (N * N * N)) (go_tk : res bytes)
 (* KeyRange, DataInstanceKeyRange, TKeyClassRange *)
 | CRange (i cls : N) (go_kr go_dikr go_tcr : bytes * bytes)
 (* parsers on arbitrary byte strings (None = nil slice); UpdateDataKey with ids (i, v, c) *)
@@ -126,11 +133,13 @@ Fixpoint model_hist (ver : N) (m : mgr) (slots : list (nat * N)) (l : list hstep
   | [] => Some (m, slots)
   | st :: r =>
     match st with
-    | HNew slot go_id =>
+    | HNew slot go_id go_empty =>
       match mgr_step m MNew with
       | Some m' =>
         match m_taken m' with
-        | id :: _ => if id =? go_id then model_hist ver m' ((slot, id) :: slots) r else None
+        | id :: _ =>
+          if (id =? go_id) && Bool.eqb go_empty (negb (existsb (fun e => of_instance id (fst e)) (m_store m')))
+          then model_hist ver m' ((slot, id) :: slots) r else None
         | [] => None
         end
       | None => None
@@ -161,17 +170,27 @@ Fixpoint model_hist (ver : N) (m : mgr) (slots : list (nat * N)) (l : list hstep
       match slot_get slots slot with
       | Some i =>
         match mgr_step m (MOp i IDeleteInstance) with
-        | Some m' => model_hist ver m' slots r
+        | Some m' => model_hist ver m' (filter (fun p => negb (Nat.eqb (fst p) slot)) slots) r
         | None => None
         end
+      | None => None
+      end
+    | HCrashDrop slot =>
+      match slot_get slots slot with
+      | Some _ => model_hist ver m (filter (fun p => negb (Nat.eqb (fst p) slot)) slots) r
+      | None => None
+      end
+    | HRestart =>
+      match mgr_step m (MRestart (map snd slots)) with
+      | Some m' => model_hist ver m' slots r
       | None => None
       end
     end
   end.
 
 Definition first_new_id (l : list hstep) : N :=
-  match find (fun st => match st with HNew _ _ => true | _ => false end) l with
-  | Some (HNew _ id) => id
+  match find (fun st => match st with HNew _ _ _ => true | _ => false end) l with
+  | Some (HNew _ id _) => id
   | _ => 1
   end.
 
@@ -204,6 +223,14 @@ Definition model_ok (c : c06case) : bool :=
     let upd := update_data_key (construct_data_key i v 0 tk) i v c in
     res_eqb bytes_eqb go_upd upd &&
     match upd with Ok k => res_eqb ids_eqb go_ids (data_key_to_local_ids k) | _ => true end
+  | CUpdTomb i0 v0 i v c tk go go_istomb go_ids go_tk =>
+    let upd := update_data_key (tombstone_key i0 v0 0 tk) i v c in
+    res_eqb bytes_eqb go upd &&
+    match upd with
+    | Ok k => Bool.eqb go_istomb (is_tombstone k) && res_eqb ids_eqb go_ids (data_key_to_local_ids k)
+              && res_eqb bytes_eqb go_tk (tkey_from_key (Some k))
+    | _ => true
+    end
   | CRange i cls go_kr go_dikr go_tcr =>
     pair_eqb go_kr (key_range_fixed i) && pair_eqb go_dikr (key_range_fixed i) &&
     pair_eqb go_tcr (tkey_class_range i cls)
@@ -326,7 +353,7 @@ Definition view_empty (a : view) : bool :=
 Fixpoint hist_dropped (l : list hstep) (slots : list (nat * N)) (acc : list N) : list N :=
   match l with
   | [] => acc
-  | HNew slot id :: r => hist_dropped r ((slot, id) :: slots) acc
+  | HNew slot id _ :: r => hist_dropped r ((slot, id) :: slots) acc
   | HDrop slot :: r =>
     match slot_get slots slot with
     | Some i => hist_dropped r slots (i :: acc)
@@ -363,8 +390,14 @@ Definition view_matches (l : list hstep) (slot : nat) (w : view) : bool :=
 Fixpoint new_ids (l : list hstep) : list N :=
   match l with
   | [] => []
-  | HNew _ id :: r => id :: new_ids r
+  | HNew _ id _ :: r => id :: new_ids r
   | _ :: r => new_ids r
+  end.
+
+Fixpoint nodupb (l : list N) : bool :=
+  match l with
+  | [] => true
+  | x :: r => negb (existsb (N.eqb x) r) && nodupb r
   end.
 
 Definition spec_class (c : c06case) : nat :=
@@ -379,6 +412,10 @@ Definition spec_class (c : c06case) : nat :=
   | CKeyLite i v c tk go_upd go_ids =>
     if is_panic go_upd || is_panic go_ids then 1%nat
     else if negb (res_eqb ids_eqb go_ids (Ok (i, v, c))) then 2%nat else 0%nat
+  | CUpdTomb i0 v0 i v c tk go go_istomb go_ids go_tk =>
+    if is_panic go || is_panic go_ids || is_panic go_tk then 1%nat
+    else if negb (go_istomb && res_eqb ids_eqb go_ids (Ok (i, v, c)) && res_eqb bytes_eqb go_tk (Ok tk)) then 2%nat
+    else 0%nat
   | CRange i cls go_kr go_dikr go_tcr => 0%nat
   | CParse _ _ _ _ _ _ _ _ => 0%nat
   | CTKey dt idx d go go_dec => 0%nat
@@ -401,6 +438,8 @@ Definition spec_class (c : c06case) : nat :=
   | CHist ver steps go_keys b_before b_after a_new =>
     if negb (view_eqb b_before b_after) then 4%nat
     else if negb (view_empty a_new) then 8%nat
+    else if existsb (fun st => match st with HNew _ _ false => true | _ => false end) steps then 8%nat
+    else if negb (nodupb (new_ids steps)) then 8%nat
     else if existsb (fun i => existsb (of_instance i) go_keys) (hist_dropped steps [] []) then 5%nat
     else if negb (view_matches steps 1%nat b_after) then 7%nat
     else 0%nat
